@@ -17,6 +17,7 @@ def check(ctx: Ctx) -> None:
     # "end callback exactly once with its id" (shared with C11)
     from . import naming as N
     N.r_id_discipline(ctx, "R03.7")
+    S.r_published_before_first_step(ctx, "R03.10")
     from . import cancel as K
     K.r_cancel_targets(ctx, "R03.8")
     S.r_counters(ctx, "R03.9")
